@@ -9,7 +9,7 @@ open Status
 /-- what the harness would observe of a job of the model -/
 def obsJob (j : Job) : JobObs :=
   { log := j.log, start := j.start, ret := j.ret, natEnd := j.start + j.spec.m * j.spec.p,
-    deadline := j.armed, saw := j.saw, pollsAgain := decide (1 ≤ j.spec.m), tie := false,
+    deadline := j.armed, saw := j.saw, pollsAgain := decide (1 ≤ j.spec.m), loopRan := true, tie := false,
     gathered := decide (j.pc = .gathered), valueKept := decide (j.output = .val j.spec.val) }
 
 def obsOf (s : Ev) (complete : Bool) : Obs :=
@@ -74,7 +74,7 @@ theorem classified_of_inv {j : Job} (hi : Inv j) (hp : j.pc = .gathered) :
       exact runFn_late c j.spec j.start hc
     · obtain ⟨r1, r2, _⟩ := runFn_after c j.spec j.start (Nat.le_of_lt hs) hb
       have hfired : j.fired = true := by rw [hf, hret]; exact r2
-      exact ⟨hcanc hfired, by rw [hsaw]; exact r1⟩
+      exact ⟨hcanc hfired, fun _ => by rw [hsaw]; exact r1⟩
     · obtain ⟨r1, r2⟩ := runFn_before c j.spec j.start hb
       have hfired : j.fired = false := by rw [hf, hret]; exact r2
       refine ⟨hdone hfired, ?_⟩
